@@ -282,3 +282,58 @@ Section SlicingZ.
              (faces_to_slice : option (list bool)) : result (mesh_out F) :=
     slice_faces_plane_z (merge_tol O) (patch_eps O) vs fsz n ref (option_map flatnonzero faces_to_slice).
 End SlicingZ.
+
+(* ---- dtypes of the returned arrays ------------------------------------------------------------------------------------
+   Which return statement of slice_faces_plane is taken decides the dtypes: the zero-vertex return hands back the vertex
+   array it was given and faces.astype(FACE_DTYPE); the nothing-kept return builds float64 / int64 zeros; the nothing-cut
+   return indexes the vertex array it was given (vertices[unique]: same dtype); the cut path appends float64 crossing points
+   (np.append promotes to float64).  Index arrays (inverse, nonzero, arange, repeat) are int64 on every path.  The public
+   wrapper first converts the vertices (np.asarray(vertices, dtype=np.float64), fixes/C02-vertex-dtype.diff) and finally asserts
+   float64 / int64 / int64. *)
+Inductive vdtype := VF64 | VF32 | VF16 | VInt.
+Inductive idtype := I64 | I32.
+Record out_dtypes := MkDt { dt_v : vdtype; dt_f : idtype; dt_map : idtype }.
+Inductive spath := PZeroVerts | PEmpty | PKeptOnly | PCut.
+
+Definition kernel_dtypes (vdt : vdtype) (p : spath) : out_dtypes :=
+  match p with
+  | PZeroVerts => MkDt vdt I64 I64
+  | PEmpty => MkDt VF64 I64 I64
+  | PKeptOnly => MkDt vdt I64 I64
+  | PCut => MkDt VF64 I64 I64
+  end.
+(* the wrapper: asarray(float64) on the way in (convert = true: the code as it is; false: the code before
+   fixes/C02-vertex-dtype.diff), the three dtype assertions on the way out *)
+Definition wrapper_dtypes (convert : bool) (vdt_given : vdtype) (p : spath) : result out_dtypes :=
+  let d := kernel_dtypes (if convert then VF64 else vdt_given) p in
+  match dt_v d, dt_f d, dt_map d with
+  | VF64, I64, I64 => Ok d
+  | _, _, _ => Raise AssertionError
+  end.
+
+Section SlicingDtypes.
+  Context {F : Type} (O : NumOps F).
+
+  Definition fds_path (fds : list (@fdata F)) : spath :=
+    let kept := map (@fd_f F) (take fds (flatnonzero (inside_mask fds))) in
+    let quads := take fds (flatnonzero (quad_mask fds)) in
+    let tris := take fds (flatnonzero (tri_mask fds)) in
+    if (length quads + length tris =? 0)%nat then (if (length kept =? 0)%nat then PEmpty else PKeptOnly) else PCut.
+
+  (* the return path of slice_faces_plane, same control flow (and exceptions) as the value model *)
+  Definition slice_faces_plane_path (tol : F) (vs : list (vec3 F)) (fs : list face) (n o : vec3 F)
+             (face_index : option (list nat)) : result spath :=
+    if (length vs =? 0)%nat then Ok PZeroVerts
+    else
+      rbind (mask_of (length fs) face_index) (fun mask =>
+        let dots := map (snapped_dot O tol n o) vs in
+        let vsigns := map (vsign O tol) dots in
+        match resolve vs dots vsigns fs mask with
+        | None => Raise IndexError
+        | Some fds => Ok (fds_path fds)
+        end).
+
+  Definition slice_triangles_by_plane_dtypes (vdt_given : vdtype) (vs : list (vec3 F)) (fs : list face) (ref n : vec3 F)
+             (faces_to_slice : option (list bool)) : result out_dtypes :=
+    rbind (slice_faces_plane_path (merge_tol O) vs fs n ref (option_map flatnonzero faces_to_slice)) (wrapper_dtypes true vdt_given).
+End SlicingDtypes.
